@@ -48,6 +48,9 @@ def make_histories(tier, rng):
             for name in ("content.xml", "styles.xml", "meta.xml"):
                 h = [dict(st)] + ([dict(op=first, name=name)] if first else []) + [dict(op="set", name=name, variant=2), dict(op="save", packaging="zip", target="buf", pretty=False), dict(op="reopen", r=1), dict(op="touch", name=name)]
                 hs.append(h)
+        # the body element is cached by Document: bytes set for content.xml must also replace it
+        hs.append([dict(st), dict(op="edit", name="content.xml", how="par", arg="before"), dict(op="set", name="content.xml", variant=3),
+                   dict(op="edit", name="content.xml", how="par", arg="after  set_part"), dict(op="save", packaging="zip", target="buf", pretty=False), dict(op="reopen", r=1)])
         hs.append([dict(st), dict(op="save", packaging="folder", target="path", pretty=False), dict(op="reopen", r=1), dict(op="set", name="content.xml", variant=1),
                    dict(op="touch", name="content.xml"), dict(op="save", packaging="zip", target="buf", pretty=False), dict(op="reopen", r=2)])
         hs.append([dict(st), dict(op="edit", name="content.xml", how="par", arg="x  y"), dict(op="save", packaging="xml", target="path", pretty=False),
